@@ -204,6 +204,9 @@ def run(w: World, rep: Report):
            'the non-native lock keeps its root in a definition: the DEF of the lock must replace whatever a witness defined under that handle, and CALL must run it (C06.R6 re-evaluated)', floor=3)
     depend(rep, w, 'rules_c17', ('C17.R4',), 'C05.TD17',
            'the point sum of the root formula adds every point it is given (C17.R4 re-evaluated)', floor=2)
+    depend(rep, w, 'rules_c02', ('C02.R2', 'C02.R3', 'C02.R4', 'C02.R5'), 'C05.TD2',
+           'the key path ends in the single-signature check: permitted flags per bit, one message builder, length guards and '
+           'the verdict mapping (C02.R2-R5 re-evaluated)', floor=20)
     rep.explanation = (
         'Decides the exactness of the two spend paths structurally: the committed script runs only through the '
         'edge on which the recomputed point equals the popped root, it is the very item that was hashed, a '
